@@ -134,6 +134,14 @@ pub struct NodeObs {
     pub promotable: bool,
     pub uncommitted_size: usize,
     pub max_inflight: usize,
+    pub batch_append: bool,
+    pub max_msg_size: u64,
+    pub apply_unpersisted_limit: u64,
+    pub max_committed_size_per_ready: u64,
+    pub randomized_election_timeout: usize,
+    pub heartbeat_elapsed: usize,
+    pub records: usize,
+    pub commit_since_index: u64,
 }
 
 pub fn log_view(rn: &RawNode<SimStore>) -> LogView {
@@ -196,6 +204,7 @@ pub fn observe(rn: &RawNode<SimStore>, want_prs: bool) -> NodeObs {
         }
         prs.sort_by_key(|p| p.id);
     }
+    let vv = rn.verif_view();
     let last_index = rl.last_index();
     let last_term = log.term(last_index).unwrap_or(0);
     NodeObs {
@@ -226,6 +235,14 @@ pub fn observe(rn: &RawNode<SimStore>, want_prs: bool) -> NodeObs {
         promotable: r.promotable(),
         uncommitted_size: r.uncommitted_size(),
         max_inflight: r.max_inflight,
+        batch_append: vv.batch_append,
+        max_msg_size: r.max_msg_size,
+        apply_unpersisted_limit: rl.max_apply_unpersisted_log_limit,
+        max_committed_size_per_ready: vv.max_committed_size_per_ready,
+        randomized_election_timeout: vv.randomized_election_timeout,
+        heartbeat_elapsed: vv.heartbeat_elapsed,
+        records: vv.records.len(),
+        commit_since_index: vv.commit_since_index,
         log,
     }
 }
